@@ -31,7 +31,7 @@ fn raw_request(t: &mut Tape, cur_flat: bool, first: bool) -> LayerSpec {
     };
     let act = [ActK::Linear, ActK::Tanh, ActK::ReLU, ActK::Sigmoid][t.pick(4)];
     match k {
-        0 => LayerSpec::Dense { out: t.usize(1, 30), act, bias: t.bool(), dropout: None },
+        0 => LayerSpec::Dense { out: if t.bool() { [1usize, 4, 9, 16, 25][t.pick(5)] } else { t.usize(1, 30) }, act, bias: t.bool(), dropout: None },
         1 => {
             let kh = t.usize(1, 4);
             let kw = t.usize(1, 4);
